@@ -1096,8 +1096,11 @@ def run(ctx):
     # -- data sets -------------------------------------------------------------------------------
     rng = ctx.rng
     out = dict(pressure_base=["cij", "cij_t", "bm_VRH", "G_VRH", "v", "vs", "vp",
-                              dict(keyword="cij_t", fname="last_component_tp.txt")],
-               volume_base=["p", "cij", "bm_R", "G_V", dict(keyword="cij", fname="last_component_tv.txt")])
+                              dict(keyword="cij_t", fname="last_component_tp.txt"),
+                              dict(keyword="bm_VRH", fname="bulk_modulus.txt")],
+               # one file name requested from BOTH sections: which table survives must not depend on anything but the settings
+               volume_base=["p", "cij", "bm_R", "G_V", dict(keyword="cij", fname="last_component_tv.txt"),
+                            dict(keyword="bm_VRH", fname="bulk_modulus.txt")])
     dsA = synth.make_dataset(rng, nv=5, nq=2, na=2, keys=SUFFICIENT["hexagonal"])
     gA = dict(NT=3, DT=150, DT_SAMPLE=150, NTV=7, DELTA_P=2, DELTA_P_SAMPLE=2)
     sA = synth.default_settings(qha=dict(settings=gA), elast=dict(settings=dict(symmetry=dict(system="hexagonal"))),
